@@ -77,6 +77,10 @@ def one_shape(col, n, edges, rng, variants, sample=False):
     prios = [10 ** i for i in range(n)]
     if rng.random() < 0.5:
         rng.shuffle(prios)
+    if rng.random() < 0.4:
+        # signed powers of ten: sums over distinct descendant sets stay pairwise different (coefficients in {-1, 0, 1})
+        prios = [p if rng.random() < 0.5 else -p for p in prios]
+        col.counters["cp_shapes_with_negative_priorities"] += 1
     sp = mk_spec(n, edges, prios)
     rp = {"kind": "cp_case", "n": n, "edges": edges, "prios": prios, "variants": variants, "source": S.render(sp)}
     d, _env, _plain = S.build_tawazi(sp)
@@ -125,10 +129,31 @@ def one_shape(col, n, edges, rng, variants, sample=False):
         rng.shuffle(p2)
         if rng.random() < 0.5:
             p2[rng.randrange(n)] = 0  # reconfiguring a priority to 0 is a legal value, not "unset"
-        conf = {"nodes": {ids[i]: {"priority": p2[i]} for i in range(n)}}
-        d.config_from_dict(conf)
+        if rng.random() < 0.5:
+            # PARTIAL reconfiguration: only some nodes are named, the others keep their own priority; then a second step
+            # (another partial one, or one that does not touch a priority at all)
+            some = set(rng.sample(range(n), rng.randint(1, max(1, n - 1))))
+            fresh = iter([10 ** k for k in range(n, 4 * n + 4)])  # values no node has had: no ties can arise
+            zero = rng.choice(sorted(some)) if rng.random() < 0.3 else None
+            p2 = [(0 if i == zero else next(fresh) * rng.choice([1, 1, -1])) if i in some else prios[i] for i in range(n)]
+            conf = {"nodes": {ids[i]: {"priority": p2[i]} for i in sorted(some)}}
+            d.config_from_dict(conf)
+            col.counters["cp_partial_reconfigurations"] += 1
+            if rng.random() < 0.6:
+                k = rng.randrange(n)
+                conf2 = {"nodes": {ids[k]: {"is_sequential": False}}}
+                if rng.random() < 0.5:
+                    j2 = rng.randrange(n)
+                    p2[j2] = next(fresh) * rng.choice([1, -1])
+                    conf2["nodes"].setdefault(ids[j2], {})["priority"] = p2[j2]
+                d.config_from_dict(conf2)
+                col.counters["cp_second_reconfigurations"] += 1
+        else:
+            conf = {"nodes": {ids[i]: {"priority": p2[i]} for i in range(n)}}
+            d.config_from_dict(conf)
         sp2 = mk_spec(n, edges, p2)
         cp2 = S.cp_spec(sp2)
+        rp = dict(rp, reconfigured_to=p2)
         check_table(col, "after_config_from_dict", dict(d.graph_ids.compound_priority), cp2, ids, allset, rp)
         orders.append(run_order(col, "after_config_from_dict", d, ids, g, cp2, allset, rp))
         # executors created AFTER the reconfiguration, with a selection that was already used before it
